@@ -157,12 +157,17 @@ func validEdit(r *vh.Rng, prev interface{}, dm map[string]interface{}) (string, 
 			}
 		}
 	case 1: // runs written differently
-		if c, ok := dm["$"].([]interface{}); ok {
+		_, prevIsList := prev.([]interface{})
+		if c, ok := dm["$"].([]interface{}); ok && prevIsList {
 			var out []interface{}
 			changed := false
 			for _, e := range c {
 				if run, isRun := e.([]interface{}); isRun && len(run) == 2 {
-					s, n := run[0].(float64), run[1].(float64)
+					s, ok1 := run[0].(float64)
+					n, ok2 := run[1].(float64)
+					if !ok1 || !ok2 {
+						return "", false
+					}
 					for i := 0.0; i < n; i++ {
 						out = append(out, s+i)
 					}
